@@ -5,6 +5,8 @@ package requestreply
 import (
 	"errors"
 
+	pkgerrors "github.com/pkg/errors"
+
 	"github.com/ThreeDotsLabs/watermill/zzverif/vrt"
 )
 
@@ -24,6 +26,11 @@ func HarnessC16Reply() {
 	}
 	if vrt.Bool("has.error") {
 		herr = errors.New(text)
+		if vrt.Bool("error.is.wrapped") {
+			// the text of an error is the text of the whole chain
+			herr = pkgerrors.Wrap(herr, "cannot handle command")
+			text = "cannot handle command: " + text
+		}
 	}
 	msg, err := m.MarshalReply(BackendOnCommandProcessedParams[c16Result]{HandlerResult: res, HandleErr: herr})
 	vrt.Assert(err == nil, "marshal succeeds")
